@@ -168,9 +168,11 @@ def run(ctx):
                     x = shift_amount_ssa(f, i.ops[0]) if i.op == 'store' and i.ops[1] in Ab else None
                     return pc_.val(strip_int_casts(f, x)) if x is not None else None
                 # the flag store must be passed before the loop goes on / the function returns successfully
+                from ..loops import loops_of as _lo16b, innermost as _in16b, same_at_every_iteration as _same16b
+                Lb = _in16b(_lo16b(P, f, pc_), s.bb)
                 def is_flag(i):
                     fa = flag_amount(i)
-                    return fa is not None and fa == want
+                    return fa is not None and (fa == want or _same16b(Lb, fa, want))
                 def is_wrong_flag(i):
                     return i.op == 'store' and i.ops[1] in Ab and not is_flag(i)
                 # "leaving the iteration" = getting back to the loop header; error returns after a failed allocation do not pass it
@@ -364,12 +366,15 @@ def run(ctx):
         if Lc is not None:
             pt = Lc.ptr_at_iteration(*pcc.ptr(d.ops[0]))
             ab = _af16(pt[1]) if pt is not None else None
-            for gd in [x for x in Lc.guards() if x.block is Lc.header]:
-                T_ = Lc.trip(gd)
-                seen_tr.append(str(T_))
-                if T_ is not None and len(T_) == 1 and list(T_.values()) == [1] and re.search(r'\.uargs\.%s$' % fld, list(T_)[0][0]) and \
-                   ab is not None and ab[0].is_zero() and ab[1] == _Po16.const(8):
-                    okc = True
+            T_, rot_ = Lc.runs()
+            seen_tr.append(str(T_))
+            if T_ is not None and rot_ and (Lc.entry_lower_bound(T_) or 0) < 1:
+                seen_tr.append('at least once, whatever the count')
+                T_ = None
+            # the freed elements are array[a/8 + (b/8)*t] for t in [0, T): going up from 0, or down from T-1
+            if T_ is not None and len(T_) == 1 and list(T_.values()) == [1] and re.search(r'\.uargs\.%s$' % fld, list(T_)[0][0]) and ab is not None and \
+               ((ab[0].is_zero() and ab[1] == _Po16.const(8)) or (ab[1] == _Po16.const(-8) and (ab[0] - (T_ - _Po16.const(1)) * 8).is_zero())):
+                okc = True
         if okc:
             r.ok(inst, func=g.name, loc=i.loc)
         else:
